@@ -1684,6 +1684,34 @@ func (e *Engine) execLoop(st *state, fr *frame, h, prev *ssa.BasicBlock, body ma
 		if okStep && step != nil {
 			pi.lv.Aux = *step
 		}
+		if pi.lv.Aux == nil && len(iters) > 0 && isWordInt(pi.lv.Type) {
+			// an accumulator that grows by a non-negative amount of lengths on every back edge (`n += 2 + len(e)`): it
+			// never falls below its initial value (a sum of lengths of live objects does not overflow a 64-bit int)
+			up := true
+			for _, it := range iters {
+				n := it.Next[pi.lv.Name]
+				if n == nil {
+					up = false
+					break
+				}
+				d := affOf(n).Add(affOf(pi.lv), -1)
+				if d.Top || d.C < 0 {
+					up = false
+					break
+				}
+				for k, c := range d.Term {
+					if sym := d.Sym[k]; c <= 0 || sym == nil || (sym.Op != "len" && sym.Op != "cap") {
+						up = false
+					}
+				}
+				if !up {
+					break
+				}
+			}
+			if up {
+				pi.lv.Aux = "up"
+			}
+		}
 	}
 	// … and of a variable that is assigned from another one of known step (`end = i` beside `i--`): it moves in
 	// lock-step with that one when the assignment keeps the distance their initial values have
@@ -3125,4 +3153,20 @@ func applyFill(nst *state, fillS, fillC *Val) {
 			}
 		}
 	}
+}
+
+// isWordInt: int, int64, uint or uint64.
+func isWordInt(t types.Type) bool {
+	if t == nil {
+		return false
+	}
+	b, ok := t.Underlying().(*types.Basic)
+	if !ok {
+		return false
+	}
+	switch b.Kind() {
+	case types.Int, types.Int64, types.Uint, types.Uint64:
+		return true
+	}
+	return false
 }
